@@ -28,7 +28,8 @@ OVERRIDE = os.environ.get("VERIF_REPO_OVERRIDE")
 if OVERRIDE:
     REPO = OVERRIDE
     _src = HARNESS
-    HARNESS = os.path.join(WORK, "harness-override")
+    LANE = os.environ.get("VERIF_LANE", "")
+    HARNESS = os.path.join(WORK, "harness-override" + LANE)
     os.makedirs(os.path.join(HARNESS, "src"), exist_ok=True)
     for _f in os.listdir(os.path.join(_src, "src")):
         _a = open(os.path.join(_src, "src", _f), "rb").read()
@@ -436,7 +437,7 @@ def load_known():
 
 
 def write_replay(prop_id, obj):
-    d = os.path.join(WORK, "override-replays") if OVERRIDE else os.path.join(ROOT, "replays")
+    d = os.path.join(WORK, "override-replays" + os.environ.get("VERIF_LANE", "")) if OVERRIDE else os.path.join(ROOT, "replays")
     os.makedirs(d, exist_ok=True)
     h = hashlib.sha1(json.dumps(obj, sort_keys=True, default=str).encode()).hexdigest()[:10]
     path = os.path.join(d, "%s-%s.json" % (prop_id, h))
@@ -446,7 +447,7 @@ def write_replay(prop_id, obj):
 
 
 def write_evidence(prop_id, ev):
-    d = os.path.join(WORK, "override-evidence") if OVERRIDE else os.path.join(ROOT, "evidence")
+    d = os.path.join(WORK, "override-evidence" + os.environ.get("VERIF_LANE", "")) if OVERRIDE else os.path.join(ROOT, "evidence")
     os.makedirs(d, exist_ok=True)
     with open(os.path.join(d, prop_id + ".json"), "w") as f:
         json.dump(ev, f, indent=1, default=str)
@@ -638,6 +639,22 @@ def run_property(P, tier, seed):
         rec["shrunk_case"] = small
         impl_vs_spec = any(norm("impl", v[i]) != (norm("spec", spec_out[i]) if spec_out is not None else mo)
                            for v in impl_outs.values())
+        # a property-level oracle (independent of model and specification run) can tell that the implementation's
+        # own answer on this input still satisfies the property: then only the correspondence is broken
+        oracle = P.get("property_oracle")
+        if impl_vs_spec and oracle:
+            verdicts = [oracle(line, v[i]) for v in impl_outs.values()]
+            rec["property_oracle"] = verdicts
+            if all(x == "ok" for x in verdicts):
+                rec["verdict"] = ("the implementation and the model disagree on this input, but the implementation's answer "
+                                  "satisfies the property (property-level oracle): correspondence with the model of "
+                                  "%s is broken" % P["prop_file"])
+                rec["broken"] = "correspondence model/implementation for " + P["prop_file"]
+                path = write_replay(pid, rec)
+                violations.append(("correspondence", path, " no-failing-input-found"))
+                if len(violations) >= 5:
+                    break
+                continue
         if impl_vs_spec:
             rec["verdict"] = "implementation differs from the specification on this input"
             path = write_replay(pid, rec)
